@@ -84,6 +84,16 @@ Fixpoint cv_eqb (a b : cv) {struct a} : bool :=
   | _, _ => false
   end.
 
+Definition dres_eqb (a b : dres) : bool :=
+  match a, b with
+  | DErr, DErr | DKeep, DKeep | DOther, DOther => true
+  | DBool x, DBool y => Bool.eqb x y
+  | DNum x f, DNum y g => Z.eqb x y && Bool.eqb f g
+  | DStr x, DStr y => String.eqb x y
+  | DList x, DList y => list_eqb String.eqb x y
+  | _, _ => false
+  end.
+
 Inductive vcase : Type :=
 (* xconfmap.Validate on a synthetic value: the tree as reflect sees it (verdicts = what each
    node's Validate returns), and the flattened error list returned.  [ordered] = the value has
@@ -103,7 +113,12 @@ Inductive vcase : Type :=
 | CFaith (name : string) (d : tv) (m : cv) (obs : tv)
 (* the written settings of a loaded component as typed values (with their opaque flags taken from
    the types), and the same key paths read from the effective configuration (conf.Marshal) *)
-| CEff (v : ev) (obs : cv).
+| CEff (v : ev) (obs : cv)
+(* one setting of kind [k] written with [w]; observed: rejected, or the typed value after the load *)
+| CMis (k : lkind) (w : wv) (obs : dres)
+(* round trip: the typed configuration [v] of component [name] (defaults [d]) is encoded, the
+   encoding loaded again; observed: the typed configuration after the second load *)
+| CRound (name : string) (d v : otv) (obs : tv).
 
 Definition check_case (c : vcase) : bool :=
   match c with
@@ -129,6 +144,8 @@ Definition check_case (c : vcase) : bool :=
       end
   | CFaith name d m obs => tv_eqb (decode_model name d m) obs
   | CEff v obs => cv_eqb (encode v) obs
+  | CMis k w obs => dres_eqb (decode_leaf k w) obs
+  | CRound name d v obs => tv_eqb (decode_model name (o_strip d) (encode_o v)) obs
   end.
 
 (* model outputs, for replay files *)
@@ -138,7 +155,8 @@ Inductive vout : Type :=
 | OPipe (e : option verr)
 | ODec (l : option (list (path * string)))
 | OFaith (v : tv)
-| OEff (c : cv).
+| OEff (c : cv)
+| OMis (r : dres).
 
 Definition model_out (c : vcase) : vout :=
   match c with
@@ -148,4 +166,6 @@ Definition model_out (c : vcase) : vout :=
   | CDec _ name v _ => ODec (option_map (fun t => unused t v) (lookup name schema))
   | CFaith name d m _ => OFaith (decode_model name d m)
   | CEff v _ => OEff (encode v)
+  | CMis k w _ => OMis (decode_leaf k w)
+  | CRound name d v _ => OFaith (decode_model name (o_strip d) (encode_o v))
   end.
